@@ -2,7 +2,7 @@ From Coq Require Extraction.
 From Coq Require Import ExtrOcamlBasic.
 From NV Require Import Base.Witness Bcf.Ints Bcf.Typed Bcf.Genotype Bcf.Strings Bcf.StringMap Bcf.Record Bcf.RecordTyped.
 From NV Require Import Vcf.Values Vcf.Line Bcf.Bridge Bcf.Lazy.
-From NV Require Vcf.Header Vcf.File Bcf.File Bcf.FileLazyDomain.
+From NV Require Vcf.Header Vcf.File Bcf.File Bcf.FileLazyDomain Bcf.FileBytes Bcf.FileBytesFmt.
 Extraction "model.ml" nv_types_witness
   enc_info_int dec_info_int enc_info_ints dec_info_ints
   enc_info_float dec_info_float enc_info_floats dec_info_floats
@@ -17,5 +17,5 @@ Extraction "model.ml" nv_types_witness
   enc_record enc_record_w enc_site enc_index enc_indices dec_index dec_indices dec_frame dec_head dec_record dec_fields split_typed dec_record_typed dec_flag
   bcf_write bcf_read bcf_read_into bcf_special content write_line read_eager_text
   lazy_read_hdr ik_of fk_of
-  NV.Bcf.File.bcf_write_file NV.Bcf.File.bcf_read_file NV.Bcf.File.bcf_read_file_lazy NV.Bcf.File.read_prefix NV.Bcf.FileLazyDomain.file_class
+  NV.Bcf.File.bcf_write_file NV.Bcf.File.bcf_read_file NV.Bcf.File.bcf_read_file_lazy NV.Bcf.File.read_prefix NV.Bcf.FileLazyDomain.file_class NV.Bcf.FileBytes.written_class NV.Bcf.FileBytesFmt.written_class_all
   NV.Vcf.Header.write_header NV.Vcf.File.with_lf.
